@@ -57,7 +57,13 @@ fn mk(chunks: &[ChunkSpec], last: &str, ntrail: usize, stop: bool, menu_kind: u8
     let srv = vec![ServerMsg { msg, gate: Gate::AfterBody }];
     let mut cfg = ExchCfg::new("C07", ReqCfg::new("GET", "1.1", "http://a.test/"), vec![], srv, b"HTTP/1.1 2".to_vec(), menu).expect("cfg");
     cfg.start_at = Some("RecvBody");
+    cfg.scope = scope;
     Arc::new(cfg)
+}
+
+/// C07 owns the body reader: reads, body state, completion and exact consumption.
+pub fn scope(k: &str) -> bool {
+    k.starts_with("read:") || k.starts_with("recv-body:") || k == "final:consumed-total" || k == "final:response-body-incomplete" || k == "no-path-to-completion" || k == "schedule-dependent-outcome" || k.starts_with("canonical:") || k.starts_with("queries:") || k.starts_with("readiness:disagrees-in-RecvBody")
 }
 
 pub fn build(tier: Tier) -> Vec<Arc<ExchCfg>> {
